@@ -770,11 +770,11 @@ PLANS["C18"] = dict(
           "distinct_nontrivial = distinct realised operation orders + distinct session completion orders."),
     quick=[R("c18", "rel", 18, shards=16)],
     thorough=[R("c18", "rel", 400, shards=16, flags={"repeats": 20}), R("c18", "tsan", 40, shards=16, flags={"repeats": 2}), R("c18", "dbg", 40, shards=16)],
-    floors={"quick": {"evaluations": 40, "distinct": 12, "interleaving_runs": 30, "interleavings_returned": 30, "session_scenarios_ok": 12, "late_arrival_forced_at_the_interrupted_poll": 3, "scenarios_started_with_sigint_ignored": 2, "scenarios_with_connection_churn": 2, "churn_sessions_completed_before_the_interrupt": 40_000},
+    floors={"quick": {"evaluations": 40, "distinct": 12, "interleaving_runs": 30, "interleavings_returned": 30, "session_scenarios_ok": 12, "late_arrival_forced_at_the_interrupted_poll": 3, "scenarios_started_with_sigint_ignored": 2, "scenarios_with_connection_churn": 2, "scenarios_with_an_upgraded_session_in_flight": 1, "churn_sessions_completed_before_the_interrupt": 40_000},
             "thorough": {"evaluations": 1_000, "interleaving_runs": 600}},
     wall_limit={"quick": 600, "thorough": 3600},
     assumptions=["'always eventually' is restated as bounded progress: no lost wake-up state + return observed within 8 s after the race (10 s after the last session), and a scenario that misses that is re-run alone with 100 s of patience before it counts; a child that exceeds its watchdog (40 s / 160 s) is inconclusive",
-                 "polling accept and reading the flag are one scheduling step (no statement boundary, no shared state between them)", "rt_tokio only"],
+                 "polling accept and reading the flag are one scheduling step (no statement boundary, no shared state between them)", "rt_tokio only", "the harness builds ohkami with the ws feature (for the upgraded-session scenario)"],
 )
 META["C18"] = dict(
     engine="vh c18 (+ vh c18child per scenario)",
